@@ -712,9 +712,10 @@ def c08(run):
 
 @check("C09")
 def c09(run):
+
     run.assumptions += ["the expected effect of every operation is written on the decoded message (spec/History.tla EffectWhy / SubsWhy): names byte-identical for every operation except rename, where compression intervenes and names are compared case-insensitively",
                         "operations are also required to succeed when no stated reason for failure applies (valid name, well-formed text, room left, policy-conforming packet)"]
-    book_models(run)
+    book_models(run, negs=("iterunc",))
     scen, events, facts, mine = history_run(run, "C09")
     run.cov["distinct_nontrivial"] = facts.get("res:ok", 0)
     run.cov["rule"] = "recorded steps; non-trivial = the operation succeeded (its effect on the decoded message was compared with the specified one)"
@@ -723,7 +724,7 @@ def c09(run):
 @check("C10")
 def c10(run):
     run.assumptions += ["failure-inducing arguments are part of the alphabet: second question, malformed and out-of-range record text, names with a 64-byte label / a forbidden byte / truncated, operations on a deleted record's cursor, renames that overflow 255 bytes, insertions that cross 8192 bytes from every starting size including packets larger than 8192, operations that must re-parse a packet whose question was deleted or whose QR bit was cleared"]
-    book_models(run)
+    book_models(run, negs=("delopt",))
     scen, events, facts, mine = history_run(run, "C10")
     failed = {k[7:]: v for k, v in facts.items() if k.startswith("failed:")}
     run.cov["distinct_nontrivial"] = facts.get("res:err", 0)
@@ -733,8 +734,17 @@ def c10(run):
         raise ToolError("vacuous run: no failing step for one of %s (%s)" % (need, failed))
 
 
-def book_models(run):
-    pass
+def book_models(run, negs=("edns", "cache", "recompute")):
+    """M: the size-level bookkeeping design (spec/Book.tla), repaired design: every initial packet
+    with <= 1 (thorough: 2) records per section, two names, per-record compression flag, OPT anywhere,
+    and every behaviour of <= 4 (thorough: 3) operations; the defect switches are negative controls."""
+    if quick(run):
+        run.model("MC_Book", "MC_Book.cfg")
+    else:
+        run.model("MC_Book", "MC_Book_thorough.cfg", timeout=3600)
+        negs = ("edns", "cache", "iterunc", "delopt", "skip", "recompute")
+    for n in negs:
+        run.negative_control("MC_Book", "MC_Book_neg_%s.cfg" % n)
 
 
 @check("HIST")
@@ -964,6 +974,12 @@ def c16(run):
     for n, prog, order in scheds:
         for _ in range(reps):
             scen.append(json.dumps({"do": "threads", "n": int(n), "program": prog, "order": order}, separators=(",", ":")))
+    # thread churn: one thread fails and keeps its handle while many other threads fail, then everybody reads
+    for n in (70, 130, 300):
+        order = list(range(1, n + 1)) + list(range(1, n + 1))
+        scen.append(json.dumps({"do": "threads", "n": n, "program": ["F", "R"], "order": order}, separators=(",", ":")))
+        order = list(range(1, n + 1)) + [1] + list(range(n, 1, -1))
+        scen.append(json.dumps({"do": "threads", "n": n, "program": ["F", "R"], "order": order}, separators=(",", ":")))
     obs, path = vlib.drive(scen, run.wd, "sched")
     if len(obs) != len(scen):
         raise ToolError("driver returned %d observations for %d scenarios" % (len(obs), len(scen)))
@@ -1004,6 +1020,11 @@ def purity_pool():
         {"f": "rename_obj", "pkt": comp, "target": H.name("a"), "source": H.name("q", "ex"), "suffix": False},
         {"f": "synth", "pkt": [], "text": "ex. 3 IN SOA n.ex. h.ex. (1 2 3 4 5)"}, {"f": "synth", "pkt": [], "text": "bad text"},
         {"f": "name", "pkt": [], "text_bytes": H.L("www.example.com")}, {"f": "empty", "pkt": []},
+        # calls that fail part-way: a rename that overflows on a later name after earlier names were already processed
+        {"f": "rename", "pkt": H.hdr(4, 0x8180, 1, 2, 0, 0) + q + H.rr(H.name("h00", "zone0", "ex"), 1, 1, [1, 1, 1, 1]) + H.rr(H.name("a" * 60, "b" * 60, "c" * 60, "d" * 50, "zone0", "ex"), 1, 2, [2, 2, 2, 2]),
+         "target": H.name("t" * 40, "zone0", "ex"), "source": H.name("zone0", "ex"), "suffix": True},
+        {"f": "rename_obj", "pkt": share, "target": H.name("u" * 63, "u" * 63, "u" * 63, "u" * 50), "source": H.name("ex"), "suffix": True},
+        {"f": "synth", "pkt": [], "text": "ex. 3 IN SOA n.ex. " + "x" * 64 + ".ex. (1 2 3 4 5)"},
     ]
     for i, c in enumerate(pool):
         c["x"] = i
